@@ -514,9 +514,10 @@ Theorem inlay_field_let : forall t typ lo hi h, In h (inlay_hint_record_field t 
   exists idc fl, identifier_node t lo hi false = Some idc /\ parent idc = Some fl /\ kind_of (fst fl) = S_FieldLet.
 Proof.
   intros t typ lo hi h H. unfold inlay_hint_record_field in *.
-  destruct (identifier_node t lo hi false) as [idc|]; [|destruct H].
-  destruct (parent idc) as [fl|]; [|destruct H].
+  destruct (identifier_node t lo hi false) as [idc|] eqn:E1; [|destruct H].
+  destruct (parent idc) as [fl|] eqn:E2; [|destruct H].
   destruct (sk_eqb (kind_of (fst fl)) S_FieldLet) eqn:E; [|destruct H].
-  destruct H as [<-|[]]. split; [reflexivity|]. split; [reflexivity|]. exists idc, fl. repeat split.
+  destruct H as [<-|[]]. split; [reflexivity|]. split; [reflexivity|]. exists idc, fl.
+  split; [reflexivity|]. split; [exact E2|].
   unfold sk_eqb in E. apply N.eqb_eq in E. destruct (kind_of (fst fl)); try discriminate E. reflexivity.
 Qed.
